@@ -82,6 +82,7 @@ def _taker_sites(ctx):
 def e2_drain(ctx, rep):
     R = "E2"
     A = ctx.A
+    ctx._e2_done = True
     P = _pipe(ctx)
     G = P.G
     takers = [s for s in _taker_sites(ctx) if any(n.body.path == s.body.path and n.bb == s.bb for n in G.nodes.values())]
@@ -100,6 +101,13 @@ def e2_drain(ctx, rep):
     h, blks = lp
     # which vector
     vt = bp.arg_term(s.bb, 0)
+    if s.ck == "std::iter::Iterator::next":
+        src = strip_wrap(vt)
+        if src[0] == "call" and src[2] in ("std::vec::Vec::drain",) and src[1][0] == body.path:
+            vt = bp.arg_term(src[1][1], 0)
+            ctx._effects_drain_site = (body.path, src[1][1])
+        elif src[0] == "take":
+            vt = src[1]
     # loop is left only when the vector is empty
     exits = [(a, b) for a in blks for b in cfg.succ[a] if b not in blks]
     for a, b in exits:
@@ -241,7 +249,7 @@ def e5_total_handover(ctx, rep):
     for name in ("dispatch_task", "dispatch_thunk"):
         b = A.method("StoreImpl", name, "Dispatcher")
         rep.note_fn(b.path)
-        pe = ctx.paths(b)
+        pe = ctx.paths(b, inline=True)
         rep.stats["paths"] += len(pe.paths)
         fn = "Dispatcher::" + name
         for p in pe.paths:
@@ -319,6 +327,9 @@ def e7_vector_untouched_between_hooks_and_drain(ctx, rep):
         rep.anchor_missing(R, "effects vector")
         return
     vec = ev[1]
+    if not hasattr(ctx, "_e2_done"):
+        from mirq.report import Report
+        e2_drain(ctx, Report("tmp"))
     takers = {(s.body.path, s.bb) for s in _taker_sites(ctx)}
     ALLOWED = {"push", "len", "is_empty", "deref", "deref_mut", "as_ref", "as_mut", "iter", "capacity", "new"}
     n = 0
@@ -338,6 +349,10 @@ def e7_vector_untouched_between_hooks_and_drain(ctx, rep):
             continue
         n += 1
         if (nd.body.path, nd.bb) in takers:
+            continue
+        if m == "drain" and getattr(ctx, "_effects_drain_site", None) == (nd.body.path, nd.bb):
+            continue  # the drain(..) that feeds the hand-over loop
+        if m == "take" and s.ck == "std::mem::take":
             continue
         rep.check(m in ALLOWED, R, "effects-vector-op:%s:%s" % (m, short(nd.body.path)), s.where, "%s on the effects vector" % m, "the store calls %s on the effects vector outside the hand-over loop: effects a middleware left in place are dropped/changed" % m)
     rep.floor(R, "operations on the effects vector", n, 4)
